@@ -208,3 +208,131 @@ def check(model, rep):
                        % (n_t, k.name, sorted(arity) if arity else '?', n_t), line=par.lineno)
     rep.count('dynamics kernel call sites in Arm', n_sites)
     rep.floor('R08.3', 'dynamics kernel call sites in Arm', n_sites, 2)
+    r084(model, rep, arm)
+
+
+def _strip(e):
+    """Drop value-preserving wrappers: parentheses are not in the AST; .reshape(..) / .flatten() / np.asarray(..)."""
+    while True:
+        if isinstance(e, ast.Call) and isinstance(e.func, ast.Attribute) and e.func.attr in ('reshape', 'flatten', 'copy', 'squeeze', 'ravel'):
+            e = e.func.value
+        elif isinstance(e, ast.Call) and src(e.func) in ('np.asarray', 'np.array', 'numpy.asarray') and len(e.args) == 1 and not isinstance(e.args[0], (ast.List, ast.Tuple)):
+            e = e.args[0]
+        else:
+            return e
+
+
+def _terms(e, asg, want):
+    """Top-level additive terms of `e` (names defined once are opened when their definition mentions `want`)."""
+    e = _strip(e)
+    if isinstance(e, ast.BinOp) and isinstance(e.op, (ast.Add, ast.Sub)):
+        return _terms(e.left, asg, want) + _terms(e.right, asg, want)
+    if isinstance(e, ast.Name) and len(asg.get(e.id, ())) == 1 and want(asg[e.id][0]):
+        return _terms(asg[e.id][0], asg, want)
+    return [e]
+
+
+def _roots(e, defs, params, seen=None):
+    """Model inputs an expression depends on: parameters and self.<field> reads, through local definitions."""
+    seen = set() if seen is None else seen
+    out = set()
+    for n in ast.walk(e):
+        if isinstance(n, ast.Attribute) and isinstance(n.value, ast.Name) and n.value.id == 'self':
+            out.add('self.' + n.attr)
+        elif isinstance(n, ast.Name) and isinstance(n.ctx, ast.Load):
+            if n.id in defs and n.id not in seen:
+                seen.add(n.id)
+                for d in defs[n.id]:
+                    out |= _roots(d, defs, params, seen)
+            elif n.id in params and n.id != 'self':
+                out.add(n.id)
+    return out
+
+
+def r084(model, rep, arm):
+    """Sibling conformance inside Arm.inverseDynamics' forward recursion: the first link is the general step with the
+    previous twist 0 and the previous acceleration (0, -g).  Decided on data dependences, not on values."""
+    rep.rule('R08.4', 'Arm.inverseDynamics: the base step of the forward recursion carries (0,0,0,-g) through the same link transform '
+                      '(same model inputs: joint value, screw, link frames) as the general step carries the previous acceleration')
+    fi = arm.methods.get('inverseDynamics')
+    if fi is None:
+        raise AnalysisError('anchor vanished: Arm.inverseDynamics')
+    params = set(fi.params)
+    gname = fi.params[4] if len(fi.params) > 4 else 'grav'
+    defs = {}
+    for n in walk_own(fi.node):
+        if isinstance(n, ast.Assign):
+            for t in n.targets:
+                b = t
+                while isinstance(b, ast.Subscript):
+                    b = b.value
+                if isinstance(b, ast.Name):
+                    defs.setdefault(b.id, []).append(n.value)
+    defs.pop(gname, None)           # `grav = self.grav` default: keep grav as a root
+    single = {k: v for k, v in assigns_of(fi).items()}
+    # stores into the acceleration table (second table written with theta_dot_dot)
+    stores = [n for n in walk_own(fi.node) if isinstance(n, ast.Assign) and isinstance(n.targets[0], ast.Subscript)
+              and isinstance(n.targets[0].value, ast.Name)]
+    acc_tab = None
+    for n in stores:
+        if fi.params[3] in {x.id for x in ast.walk(n.value) if isinstance(x, ast.Name)}:
+            acc_tab = n.targets[0].value.id
+    if acc_tab is None:
+        rep.unresolved_item('R08.4', fi.where, 'acceleration table of the forward recursion not recognised')
+        return
+    acc_stores = [n for n in stores if n.targets[0].value.id == acc_tab]
+
+    def mentions(name):
+        return lambda e: any(isinstance(x, ast.Name) and x.id == name for x in ast.walk(e))
+
+    def opened(e, pred):
+        e = _strip(e)
+        while isinstance(e, ast.Name) and len(single.get(e.id, ())) == 1 and pred(single[e.id][0]):
+            e = _strip(single[e.id][0])
+        return e
+
+    gen_ops, base = [], []
+    for n in acc_stores:
+        for t in _terms(n.value, single, lambda e: mentions(acc_tab)(e) or mentions(gname)(e)):
+            t = opened(t, lambda e: mentions(acc_tab)(e) or mentions(gname)(e))
+            if isinstance(t, ast.BinOp) and isinstance(t.op, ast.MatMult):
+                if mentions(acc_tab)(t.right) and not mentions(gname)(t):
+                    gen_ops.append((n, t.left))
+                elif mentions(gname)(t.right) and not mentions(gname)(t.left):
+                    base.append((n, t.left, t.right))
+            elif mentions(gname)(t):
+                base.append((n, None, t))
+    rep.count('R08.4 propagation terms (general step)', len(gen_ops))
+    rep.count('R08.4 gravity terms (base step)', len(base))
+    if len(gen_ops) != 1 or len(base) != 1:
+        rep.ob('R08.4', fi, 'one propagation term and one gravity term in the forward recursion', False,
+               'found %d term(s) `X @ %s[.., i-1]` and %d term(s) carrying `%s`: the base acceleration (0,0,0,-g) must enter exactly once, '
+               'through the link transform' % (len(gen_ops), acc_tab, len(base), gname))
+        return
+    (gn, gop), (bn, bop, bvec) = gen_ops[0], base[0]
+    want = _roots(gop, defs, params) - {'self.num_dof'}
+    got = _roots(bop, defs, params) if bop is not None else set()
+    missing = sorted(want - got)
+    rep.ob('R08.4', fi, 'gravity enters through the link transform of the general step', not missing,
+           'the general step propagates the previous acceleration with `%s` (depends on %s); the base step applies `%s` to the gravity vector, '
+           'which does not depend on %s: link 0 sees gravity in a frame that ignores them, so the gravity torques are wrong whenever those inputs '
+           'matter (joint 0 away from zero / link frame different from the home frame)'
+           % (src(gop)[:60], ', '.join(sorted(want)), src(bop)[:70] if bop is not None else '(nothing)', ', '.join(missing)), line=bn.lineno)
+    # the carried vector is (0,0,0,-g)
+    v = opened(bvec, mentions(gname))
+    txt = src(v).replace(' ', '')
+    zero3 = ('np.array([0,0,0])', 'np.zeros(3)', 'np.zeros((3))', 'np.zeros((3,))', '[0,0,0]', 'np.array([0.0,0.0,0.0])')
+    neg = ('-1*%s' % gname, '-%s' % gname, '-1.0*%s' % gname, '%s*-1' % gname, '-1*np.asarray(%s)' % gname)
+    pos = (gname,)
+    m = None
+    if isinstance(v, ast.Call) and src(v.func) in ('np.hstack', 'np.concatenate', 'np.append', 'np.r_') and v.args:
+        parts = v.args[0].elts if isinstance(v.args[0], (ast.Tuple, ast.List)) and len(v.args) == 1 else list(v.args)
+        m = [src(p).replace(' ', '') for p in parts]
+    if m is not None and len(m) == 2 and m[0] in zero3 and m[1] in neg:
+        rep.ob('R08.4', fi, 'base acceleration = (0, 0, 0, -g)', True, txt, line=bn.lineno)
+    elif m is not None and len(m) == 2 and ((m[0] in zero3 and m[1] in pos) or (m[1] in zero3 and m[0] in neg + pos)):
+        rep.ob('R08.4', fi, 'base acceleration = (0, 0, 0, -g)', False,
+               'the base acceleration is %s: the recursion needs the angular part zero and the linear part -g (a fixed base is equivalent to an '
+               'upward acceleration of g)' % txt, line=bn.lineno)
+    else:
+        rep.unresolved_item('R08.4', '%s:%d' % (fi.module.relpath, bn.lineno), 'base acceleration vector not in a recognised form: %s' % txt[:80])
